@@ -21,10 +21,11 @@ ASSUME = [
     "time is the virtual clock of testing/synctest: sleepers wake exactly on time. On a real clock a sleeper that wakes late "
     "sends together with the next one: TLC refutes the bound for Prompt = FALSE (excess <= one message per waiter); "
     "scheduling latency is outside the statement",
-    "life cycle: a user record made anew (GetUser after the previous record left the panel) starts with full buckets on the "
-    "tree under test, so across re-activations the bound checked is rate*t + burst + one burst per activation inside the "
-    "interval; a handshake that finds a record on which closeAllSessions has already run is the known finding D9 "
-    "(C15/C17 lookup-gap-vs-terminate) and is excluded from the schedules (TokenBucketPanel.tla, NoLookupGap)",
+    "life cycle: the bound is the literal one; an excess of at most one burst per re-activation of the user inside the interval, "
+    "with one valve at every instant, is classified as the known defect D18 (fresh buckets on reconnect, flag "
+    "FreshBucketOnReactivation in TokenBucketPanel.tla) and reported under its own keys, anything beyond it under "
+    "*-exceeds:across-lifecycle; a handshake that finds a record on which closeAllSessions has already run is the known finding "
+    "D9 (C15/C17 lookup-gap-vs-terminate) and is excluded from the schedules (TokenBucketPanel.tla, NoLookupGap)",
     "low-rate relaxation: where a single message is larger than the burst (2 kB/s with 16 kB frames) the bound checked "
     "is rate*t + burst + that one message; TLC refutes the unrelaxed bound for such configurations",
     "juju/ratelimit's Take arithmetic is modelled from its source (v1.0.2) and compared with the library on random walks of "
@@ -33,6 +34,25 @@ ASSUME = [
 ]
 
 W2, W3 = "{w1, w2}", "{w1, w2, w3}"
+
+# Code-faithful deviation flags of TokenBucketPanel.tla. FreshBucketOnReactivation = defect D18 (known finding, keys
+# tx-/rx-exceeds:burst-refill-on-reactivation): a terminated user gets brand-new full buckets with the next handshake.
+# Drop the flag together with a repair in /repo (the check turns INCONCLUSIVE when model and code disagree about it).
+CODE_FAITHFUL = {"FreshBucketOnReactivation": True}
+REFILL_KEYS = ("tx-exceeds:burst-refill-on-reactivation", "rx-exceeds:burst-refill-on-reactivation")
+D18_NAME = "d18-reconnect-cycle"
+
+
+def d18_behaviour():
+    """The one deterministic demonstration of D18: a backlogged user drains the burst, its only session is closed, it
+    reconnects at once - three times inside one virtual second. Same format as the TLC-generated schedules (it is the
+    sequential-churn behaviour hs, close, hs, close, hs, close, hs of TokenBucketPanel with no gate switched on)."""
+    steps = []
+    for k in range(1, 5):
+        steps.append({"ev": {"a": "hs", "sid": k, "rec": k, "fresh": True}, "obs": {"valves": 1, "live": [k], "cur": k}})
+        if k < 4:
+            steps.append({"ev": {"a": "close", "p": k, "rec": k, "sid": k, "at": "done"}, "obs": {"valves": 0, "live": [], "cur": 0}})
+    return {"bad": False, "mode": "strict", "name": D18_NAME, "gates": [], "step_ms": 50, "tail_ms": 1000, "steps": steps}
 
 
 def mc(ctx, tag, waiters, quanta, fis, bursts, backlog, sizes, maxtime, mode="before", capf=1, relax=False,
@@ -110,11 +130,15 @@ def gen_and_replay(ctx, q):
     return behaviours
 
 
-def life_run(ctx, tag, hs, closers, recs, gates, dev):
-    gs = "{" + ", ".join('"%s"' % g for g in gates) + "}"
+def tla_set(xs):
+    return "{" + ", ".join('"%s"' % x for x in xs) + "}"
+
+
+def life_run(ctx, tag, hs, closers, recs, gates, dev, invs, export=True, expect_violation=False):
     return lib.run_tlc(ctx, "TokenBucketPanel", "TokenBucketPanel.cfg",
-                       {"MAXHS": hs, "NCLOSERS": closers, "MAXREC": recs, "GATES": gs, "DEV": '{"StaleCheck"}' if dev else "{}",
-                        "EXPORT": "TRUE", "INVS": "Emit" if dev else "Emit OneValve"}, workers=2, tag=tag, timeout=1200)
+                       {"MAXHS": hs, "NCLOSERS": closers, "MAXREC": recs, "GATES": tla_set(gates), "DEV": tla_set(dev),
+                        "EXPORT": "TRUE" if export else "FALSE", "INVS": invs}, workers=2, tag=tag, timeout=1200,
+                       expect_violation=expect_violation)
 
 
 def life_behaviours(ctx, q):
@@ -123,10 +147,19 @@ def life_behaviours(ctx, q):
     import random
     rng = random.Random(ctx.seed)
     cfgs = [(3, 2, 3, ["closed"])] if q else [(3, 2, 3, ["unlocked", "closed"]), (4, 3, 4, ["closed"])]
-    out, stats = [], {"model_behaviours": 0, "hypothesis_behaviours": 0}
+    out, stats = [d18_behaviour()], {"model_behaviours": 0, "hypothesis_behaviours": 0}
+    code = [k for k, v in CODE_FAITHFUL.items() if v]
+    # the literal bound in the (clock-less) panel model: holds in the ideal design, violated by the code-faithful one (D18)
+    hs, cl, recs, gates = cfgs[0]
+    lib.require_ok(life_run(ctx, "life_ideal", hs, cl, recs, gates, [], "OneValve RateBound", export=False), "TokenBucketPanel ideal (RateBound)")
+    if code:
+        v = life_run(ctx, "life_code_ratebound", hs, cl, recs, gates, code, "RateBound", export=False, expect_violation=True)
+        if v.violated != "RateBound":
+            raise lib.Inconclusive("code-faithful panel model (FreshBucketOnReactivation) does not violate RateBound (got %s)" % v.violated)
+        stats["ratebound_cex_states"] = len(v.cex)
     for i, (hs, cl, recs, gates) in enumerate(cfgs):
-        head = lib.require_ok(life_run(ctx, "life_head_%d" % i, hs, cl, recs, gates, False), "TokenBucketPanel (OneValve)")
-        dev = life_run(ctx, "life_dev_%d" % i, hs, cl, recs, gates, True)
+        head = lib.require_ok(life_run(ctx, "life_head_%d" % i, hs, cl, recs, gates, code, "Emit OneValve"), "TokenBucketPanel (OneValve)")
+        dev = life_run(ctx, "life_dev_%d" % i, hs, cl, recs, gates, code + ["StaleCheck"], "Emit")
         bad = [b for b in dev.behaviours if b.get("bad")]
         if not dev.ok or not bad or any(b.get("bad") for b in head.behaviours):
             raise lib.Inconclusive("TokenBucketPanel: the StaleCheck deviation must produce schedules that end with two valves "
@@ -163,7 +196,7 @@ def run_impl(ctx, q, pool, pos, neg):
     tr = lib.run_go(ctx, "multiplex", "TestVerifC19Trace", env={"VERIF_C19_FILES": nfiles, "VERIF_IN": inp}, timeout=1500)
     lib.collect_go(ctx, tr)
     lib.collect_go(ctx, us)
-    go_keys = sorted({v["key"] for v in tr.get("violations", []) + us.get("violations", [])})
+    go_keys = sorted({v["key"] for v in tr.get("violations", []) + us.get("violations", []) if v["key"] not in REFILL_KEYS})
     st = tr["stats"]
     ctx.log("harness: %d scenarios, %d tx + %d rx events, %d virtual s; server.ActiveUser: %d scenarios (%d racing, %d overlapped inside "
             "AuthenticateUser, %d with split user records), %d events; violations %s" % (
@@ -175,9 +208,17 @@ def run_impl(ctx, q, pool, pos, neg):
             "re-activation, %d diverged" % (ust.get("life_behaviours", 0), ust.get("life_strict", 0), ust.get("life_hypo", 0),
                                             ust.get("life_hypothesis_followed", 0), ust.get("life_hypothesis_refuted", 0),
                                             ust.get("life_reactivated", 0), ust.get("life_diverged", 0)))
-    if ust.get("life_diverged", 0) and not us.get("violations"):
+    serious = [v for v in us.get("violations", []) if v["key"] not in REFILL_KEYS]
+    shown = [k for k in REFILL_KEYS if ust.get("named:%s:%s" % (D18_NAME, k), 0)]
+    for smp in us.get("samples", []):
+        if smp.get("named_life_scenario") == D18_NAME:
+            ctx.log("D18 scenario: %s" % smp["finding"]["what"][-330:])
+    if CODE_FAITHFUL["FreshBucketOnReactivation"] and not serious and REFILL_KEYS[0] not in shown:
+        raise lib.Inconclusive("FreshBucketOnReactivation (D18) predicts a refill of the burst on every reconnect, the deterministic scenario "
+                               "does not show it on this tree - if the panel now keeps a user's buckets, drop the flag in c19.py")
+    if ust.get("life_diverged", 0) and not serious:
         raise lib.Inconclusive("TokenBucketPanel.tla and the panel disagree on a life-cycle schedule: %s" % (us.get("notes") or [])[:3])
-    if ust.get("life_behaviours", 0) != len(life) and not us.get("violations"):
+    if ust.get("life_behaviours", 0) != len(life) and not serious:
         raise lib.Inconclusive("only %s of %d life-cycle schedules were replayed" % (ust.get("life_behaviours"), len(life)))
     if st.get("dead_scenarios", 0) or us["stats"].get("dead_scenarios", 0):
         raise lib.Inconclusive("a scenario moved no data: %s" % tr.get("notes"))
@@ -191,12 +232,22 @@ def run_impl(ctx, q, pool, pos, neg):
         p = os.path.join(tr["_out_dir"], "trace%d.ndjson" % i)
         if os.path.getsize(p) > 0:
             vals.append((p, pool.submit(validate, ctx, p, "trace%d" % i)))
-    nev, accepted, tlc_keys = 0, 0, []
+    nev, accepted, tlc_keys, lit_seen = 0, 0, [], set()
     for p, f in vals:
         v = f.result()
         lines = open(p).read().splitlines()
         nev += len(lines)
         nscn = sum(1 for ln in lines if ln.startswith('{"ev":"reset"'))
+        for m in re.finditer(r'<<"LITERAL_EXCEEDED", (\d+), (\d+), "(tx|rx)", (\d+), (\d+)>>', v.out):
+            scn_, ln, d_, q_, bound_ = int(m.group(1)), int(m.group(2)), m.group(3), int(m.group(4)), int(m.group(5))
+            if scn_ > 1000 and d_ + "-tlc" not in lit_seen:
+                lit_seen.add(d_ + "-tlc")
+                ctx.violations.append({
+                    "key": d_ + "-exceeds:burst-refill-on-reactivation",
+                    "what": "TLC (TokenBucketTrace): in life-cycle run %d the literal virtual queue of %s reaches %d > %d at event %s while the "
+                            "queue that forgives one burst per re-activation stays within the bound" % (
+                                scn_, d_, q_, bound_, lines[ln - 1] if 0 < ln <= len(lines) else "?"),
+                    "replay": {"life_behaviour": life[scn_ - 1001] if scn_ - 1001 < len(life) else None}})
         if v.ok:
             accepted += nscn
             continue
@@ -246,8 +297,9 @@ def run_impl(ctx, q, pool, pos, neg):
                 "when the tree admits them there together), the bound evaluated over all of the user's sessions; "
                 "plus life-cycle schedules generated by TLC from TokenBucketPanel.tla (handshakes, CloseSession calls parked at and "
                 "released from the verifhook points, on the real userPanel, every live session backlogged both ways; non-trivial = "
-                "at least one CloseSession) with the one-valve identity check at every quiescent point and the interval bound "
-                "(+ one burst per re-activation) over all sessions; "
+                "at least one CloseSession) with the one-valve identity check at every quiescent point and the literal interval bound "
+                "over all sessions (excess explained by fresh buckets on re-activation = known defect D18, own keys), and the "
+                "deterministic reconnect-cycle scenario that shows D18 on every run; "
                 "non-trivial = the bucket ran dry (more than one burst passed); distinct = distinct scenario parameters. "
                 "Also counted: TokenBucketGen behaviours (random walks of the model, 12-16 Takes by 3 waiters) replayed on a real "
                 "ratelimit.Bucket with a scripted clock in 4 clock concretisations, non-trivial = at least one Take had to wait",
